@@ -431,7 +431,7 @@ def load_known():
 def match_known(known, prop, gid, ob):
     key = '%s @%s:%s' % (ob['desc'], os.path.basename(ob['file']), ob['func'])
     for k in known:
-        if k['prop'] == prop and k['group'] == gid and re.search(k['rx'], key):
+        if k['prop'] == prop and (k['group'] == gid or re.fullmatch(k['group'], gid)) and re.search(k['rx'], key):
             return k
     return None
 
